@@ -24,7 +24,7 @@ pub const MAXPRE: usize = 8; // ledger entries a havocked pre-state may hold
 pub const D2D: u8 = 0; // driver -> device (device-readable)
 pub const D2H: u8 = 1; // device -> driver (device-writable)
 
-#[derive(Clone, Copy, kani::Arbitrary)]
+#[derive(Clone, Copy)]
 pub struct Sh {
     pub ptr: usize,
     pub len: usize,
@@ -91,24 +91,203 @@ unsafe impl Hal for LHal {
         NonNull::new(p as usize as *mut u8).unwrap()
     }
     unsafe fn share(b: NonNull<[u8]>, d: BufferDirection, ap: bool) -> PhysAddr {
-        let i = LG_N;
-        assert!(i < MAXSH, "harness: share ledger full");
-        assert!(dir_code(d) != 2, "C04: buffer shared with direction Both");
-        LG[i] = Sh { ptr: b.as_ptr() as *mut u8 as usize, len: b.len(), dir: dir_code(d), ap, live: true, unshares: 0 };
-        LG_N = i + 1;
-        lg_paddr(i)
+        lg_share(b, d, ap)
     }
     unsafe fn unshare(p: PhysAddr, b: NonNull<[u8]>, d: BufferDirection, ap: bool) {
-        let f = lg_find_live(p);
-        assert!(f.is_some(), "C04: unshare of a device address that is not a live share (double or foreign unshare)");
-        let i = f.unwrap();
-        assert!(LG[i].ptr == b.as_ptr() as *mut u8 as usize, "C04: unshare buffer pointer differs from the one shared");
-        assert!(LG[i].len == b.len(), "C04: unshare buffer length differs from the one shared");
-        assert!(LG[i].dir == dir_code(d), "C04: unshare direction differs from share direction");
-        assert!(LG[i].ap == ap, "C04: unshare access_platform differs from share");
-        LG[i].live = false;
-        LG[i].unshares += 1;
+        lg_unshare(p, b, d, ap)
     }
+}
+
+pub unsafe fn lg_share(b: NonNull<[u8]>, d: BufferDirection, ap: bool) -> PhysAddr {
+    let i = LG_N;
+    assert!(i < MAXSH, "harness: share ledger full");
+    assert!(dir_code(d) != 2, "C04: buffer shared with direction Both");
+    LG[i] = Sh { ptr: b.as_ptr() as *mut u8 as usize, len: b.len(), dir: dir_code(d), ap, live: true, unshares: 0 };
+    LG_N = i + 1;
+    lg_paddr(i)
+}
+pub unsafe fn lg_unshare(p: PhysAddr, b: NonNull<[u8]>, d: BufferDirection, ap: bool) {
+    let f = lg_find_live(p);
+    assert!(f.is_some(), "C04: unshare of a device address that is not a live share (double or foreign unshare)");
+    let i = f.unwrap();
+    assert!(LG[i].ptr == b.as_ptr() as *mut u8 as usize, "C04: unshare buffer pointer differs from the one shared");
+    assert!(LG[i].len == b.len(), "C04: unshare buffer length differs from the one shared");
+    assert!(LG[i].dir == dir_code(d), "C04: unshare direction differs from share direction");
+    assert!(LG[i].ap == ap, "C04: unshare access_platform differs from share");
+    LG[i].live = false;
+    LG[i].unshares += 1;
+}
+/// Translate a device address back to the driver pointer it was shared from (reference devices only).
+pub fn lg_dev_ptr(p: u64) -> *mut u8 {
+    let f = lg_find_live(p);
+    assert!(f.is_some(), "C04: device was given an address that is not a live share");
+    unsafe { LG[f.unwrap()].ptr as *mut u8 }
+}
+pub fn lg_dev_len(p: u64) -> usize {
+    let f = lg_find_live(p);
+    assert!(f.is_some(), "C04: device was given an address that is not a live share");
+    unsafe { LG[f.unwrap()].len }
+}
+
+// ------------------------------------------------------------------------------------------------
+// Event log (ordering of transport calls, DMA releases, frees) and typed DMA Hal
+pub const MAXEV: usize = 48;
+pub const EV_SET_STATUS: u8 = 1; // arg = status bits
+pub const EV_READ_FEATURES: u8 = 2;
+pub const EV_WRITE_FEATURES: u8 = 3; // arg = features
+pub const EV_QUEUE_SET: u8 = 4; // arg = queue
+pub const EV_QUEUE_UNSET: u8 = 5; // arg = queue
+pub const EV_NOTIFY: u8 = 6; // arg = queue
+pub const EV_DMA_ALLOC: u8 = 7; // arg = dma index
+pub const EV_DMA_DEALLOC: u8 = 8; // arg = dma index
+pub const EV_RESET_ON_DROP: u8 = 9;
+pub const EV_HEAP_FREE: u8 = 10; // arg = pointer
+pub const EV_GUEST_PAGE_SIZE: u8 = 11;
+pub static mut EVK: [u8; MAXEV] = [0; MAXEV];
+pub static mut EVA: [u64; MAXEV] = [0; MAXEV];
+pub static mut EV_N: usize = 0;
+pub fn ev_push(k: u8, a: u64) {
+    unsafe {
+        assert!(EV_N < MAXEV, "harness: event log full");
+        EVK[EV_N] = k;
+        EVA[EV_N] = a;
+        EV_N += 1;
+    }
+}
+/// index of the first event of kind k (with argument a, if given) at or after `from`
+pub fn ev_find(k: u8, a: Option<u64>, from: usize) -> Option<usize> {
+    let mut i = 0;
+    let mut r = None;
+    while i < MAXEV {
+        unsafe {
+            if r.is_none() && i >= from && i < EV_N && EVK[i] == k && (a.is_none() || a == Some(EVA[i])) {
+                r = Some(i);
+            }
+        }
+        i += 1;
+    }
+    r
+}
+pub fn ev_count(k: u8) -> usize {
+    let mut i = 0;
+    let mut c = 0;
+    while i < MAXEV {
+        unsafe {
+            if i < EV_N && EVK[i] == k { c += 1; }
+        }
+        i += 1;
+    }
+    c
+}
+
+pub const MAXDMA: usize = 12;
+#[derive(Clone, Copy)]
+pub struct DmaRec {
+    pub paddr: u64,
+    pub vaddr: *mut u8,
+    pub pages: usize,
+    pub dir: u8,
+    pub ap: bool,
+    pub live: bool,
+    pub deallocs: u8,
+}
+pub const DMA0: DmaRec = DmaRec { paddr: 0, vaddr: core::ptr::null_mut(), pages: 0, dir: 0, ap: false, live: false, deallocs: 0 };
+pub static mut DMA: [DmaRec; MAXDMA] = [DMA0; MAXDMA];
+pub static mut DMA_CNT: usize = 0;
+/// 0 = allocations never fail; k = the k-th dma_alloc call returns (0, dangling)
+pub static mut DMA_FAIL_AT: usize = 0;
+pub static mut DMA_CALLS: usize = 0;
+
+#[repr(C, align(16))]
+pub struct D2DMem<const N: usize> {
+    pub desc: [Descriptor; N],
+    pub avail: AvailRing<N>,
+}
+#[repr(C, align(16))]
+pub struct D2HMem<const N: usize> {
+    pub used: UsedRing<N>,
+}
+/// byte-addressable DMA memory for buffers that are not rings (GPU frame buffer, legacy layout ...)
+#[repr(C, align(16))]
+pub struct RawMem {
+    pub words: [u64; RAW_WORDS],
+}
+pub const RAW_WORDS: usize = 1024;
+
+pub fn dma_paddr(i: usize) -> u64 {
+    0x10_0000 * (i as u64 + 1)
+}
+pub fn dma_index(paddr: u64) -> Option<usize> {
+    if paddr < 0x10_0000 || paddr % 0x10_0000 != 0 {
+        return None;
+    }
+    let i = (paddr / 0x10_0000 - 1) as usize;
+    if i < MAXDMA && i < unsafe { DMA_CNT } { Some(i) } else { None }
+}
+
+/// Typed DMA Hal: ring memory is handed out as typed, zeroed objects (never as bytes); every
+/// allocation and release is logged and checked; share/unshare go to the ledger.
+pub struct THal<const N: usize>;
+unsafe impl<const N: usize> Hal for THal<N> {
+    fn dma_alloc(pages: usize, d: BufferDirection, ap: bool) -> (PhysAddr, NonNull<u8>) {
+        unsafe {
+            DMA_CALLS += 1;
+            if DMA_FAIL_AT != 0 && DMA_CALLS == DMA_FAIL_AT {
+                return (0, NonNull::dangling());
+            }
+            let i = DMA_CNT;
+            assert!(i < MAXDMA, "harness: DMA log full");
+            assert!(pages >= 1, "C06: zero-page DMA allocation");
+            let p: *mut u8 = match d {
+                BufferDirection::DriverToDevice if pages == 1 => alloc::boxed::Box::into_raw(alloc::boxed::Box::new(D2DMem::<N> {
+                    desc: FromZeros::new_zeroed(),
+                    avail: AvailRing { flags: AtomicU16::new(0), idx: AtomicU16::new(0), ring: [0; N], used_event: AtomicU16::new(0) },
+                })) as *mut u8,
+                BufferDirection::DeviceToDriver if pages == 1 => alloc::boxed::Box::into_raw(alloc::boxed::Box::new(D2HMem::<N> {
+                    used: UsedRing { flags: AtomicU16::new(0), idx: AtomicU16::new(0), ring: core::array::from_fn(|_| UsedElem { id: 0, len: 0 }), avail_event: AtomicU16::new(0) },
+                })) as *mut u8,
+                _ => {
+                    assert!(pages * 4096 <= RAW_WORDS * 8, "harness: raw DMA allocation larger than the model supports");
+                    alloc::boxed::Box::into_raw(alloc::boxed::Box::new(RawMem { words: [0; RAW_WORDS] })) as *mut u8
+                }
+            };
+            DMA[i] = DmaRec { paddr: dma_paddr(i), vaddr: p, pages, dir: dir_code(d), ap, live: true, deallocs: 0 };
+            DMA_CNT = i + 1;
+            ev_push(EV_DMA_ALLOC, i as u64);
+            (dma_paddr(i), NonNull::new(p).unwrap())
+        }
+    }
+    unsafe fn dma_dealloc(p: PhysAddr, v: NonNull<u8>, pages: usize, ap: bool) -> i32 {
+        let f = dma_index(p);
+        assert!(f.is_some(), "C09: dma_dealloc of an address dma_alloc never returned");
+        let i = f.unwrap();
+        assert!(DMA[i].live, "C09: DMA region released twice");
+        assert!(DMA[i].vaddr == v.as_ptr() && DMA[i].pages == pages && DMA[i].ap == ap, "C09: dma_dealloc arguments differ from the allocation");
+        DMA[i].live = false;
+        DMA[i].deallocs += 1;
+        ev_push(EV_DMA_DEALLOC, i as u64);
+        0
+    }
+    unsafe fn mmio_phys_to_virt(p: PhysAddr, _s: usize) -> NonNull<u8> {
+        NonNull::new(p as usize as *mut u8).unwrap()
+    }
+    unsafe fn share(b: NonNull<[u8]>, d: BufferDirection, ap: bool) -> PhysAddr {
+        lg_share(b, d, ap)
+    }
+    unsafe fn unshare(p: PhysAddr, b: NonNull<[u8]>, d: BufferDirection, ap: bool) {
+        lg_unshare(p, b, d, ap)
+    }
+}
+pub fn dma_live_count() -> usize {
+    let mut i = 0;
+    let mut c = 0;
+    while i < MAXDMA {
+        unsafe {
+            if i < DMA_CNT && DMA[i].live { c += 1; }
+        }
+        i += 1;
+    }
+    c
 }
 
 // ------------------------------------------------------------------------------------------------
@@ -316,17 +495,9 @@ pub fn havoc_private<H: Hal, const N: usize>(q: &mut VirtQueue<H, N>) {
     }
 }
 
-/// Havoc the ledger: `n` <= MAXPRE entries with arbitrary contents; inv_*() constrains the ones chains refer to.
-pub fn havoc_ledger(n: usize) {
-    kani::assume(n <= MAXPRE);
-    unsafe {
-        let mut i = 0;
-        while i < MAXPRE {
-            LG[i] = kani::any();
-            i += 1;
-        }
-        LG_N = n;
-    }
+/// Identity-only stand-ins for buffers of chains the step under test never touches.
+pub fn dummy_ptr(e: usize) -> usize {
+    kani::any()
 }
 
 /// INV items 1-5 for a queue without indirect descriptors (DESIGN.md §4.2).  Pure predicate, no
@@ -553,7 +724,8 @@ pub fn inv_indirect<H: Hal, const N: usize>(q: &VirtQueue<H, N>, g: &Ghost<N>, t
 /// distinct descriptors, what `next` holds at the end of each sequence is arbitrary (< N), free descriptors
 /// carry arbitrary stale addr/len/flags, and ghost chain ids are labels.  Ledger entries of the chains are
 /// laid out contiguously from 0 (entries of long-gone chains are dead and irrelevant).
-pub fn gen_direct<H: Hal, const N: usize>(q: &mut VirtQueue<H, N>, chain0: Option<(usize, usize)>, maxch: usize) -> Ghost<N> {
+pub type Chain0 = Option<(usize, usize, [usize; MAXC], [usize; MAXC])>;
+pub fn gen_direct<H: Hal, const N: usize>(q: &mut VirtQueue<H, N>, chain0: Chain0, maxch: usize) -> Ghost<N> {
     let mut ord = [0u16; N];
     let mut i = 0;
     while i < N {
@@ -572,12 +744,12 @@ pub fn gen_direct<H: Hal, const N: usize>(q: &mut VirtQueue<H, N>, chain0: Optio
         i += 1;
     }
     let mut c: [usize; K] = kani::any();
-    if let Some((c0, _)) = chain0 { c[0] = c0; }
+    if let Some((c0, _, _, _)) = chain0 { c[0] = c0; }
     kani::assume(c[0] <= N && c[1] <= N && c[2] <= N && c[0] + c[1] + c[2] <= N);
     if maxch < 3 { kani::assume(c[2] == 0); }
     if maxch < 2 { kani::assume(c[1] == 0); }
     let mut nin: [usize; K] = kani::any();
-    if let Some((_, i0)) = chain0 { nin[0] = i0; }
+    if let Some((_, i0, _, _)) = chain0 { nin[0] = i0; }
     kani::assume(nin[0] <= c[0] && nin[1] <= c[1] && nin[2] <= c[2]);
     let total = c[0] + c[1] + c[2];
     let mut g = Ghost::<N> {
@@ -603,11 +775,18 @@ pub fn gen_direct<H: Hal, const N: usize>(q: &mut VirtQueue<H, N>, chain0: Optio
             }
             g.owner[d] = k as u8;
             let e = g.eb[k] + s;
-            let len: usize = kani::any();
+            let mut len: usize = kani::any();
             kani::assume(len >= 1 && len <= u32::MAX as usize);
+            let mut ptr = dummy_ptr(e);
+            if k == 0 {
+                if let Some((_, _, ps, ls)) = chain0 {
+                    ptr = ps[s % MAXC];
+                    len = ls[s % MAXC];
+                }
+            }
             let dir = if s < nin[k] { D2D } else { D2H };
             unsafe {
-                LG[e] = Sh { ptr: kani::any(), len, dir, ap: q.access_platform, live: true, unshares: 0 };
+                LG[e] = Sh { ptr, len, dir, ap: q.access_platform, live: true, unshares: 0 };
             }
             let mut f = 0u16;
             if s + 1 < c[k] { f |= 1; }
@@ -638,7 +817,7 @@ pub fn gen_direct<H: Hal, const N: usize>(q: &mut VirtQueue<H, N>, chain0: Optio
 /// table of 2..=MAXC buffers).  Chain 0 (the one a harness pops) has `nb0` buffers and, if nb0 > 1, a real
 /// heap table; the tables of the other chains are never dereferenced by the step under test and are
 /// represented by their pointer identity only.
-pub fn gen_indirect<H: Hal, const N: usize>(q: &mut VirtQueue<H, N>, nb0: usize, nin0: usize, maxch: usize) -> (Ghost<N>, [Option<NonNull<[Descriptor]>>; K]) {
+pub fn gen_indirect<H: Hal, const N: usize>(q: &mut VirtQueue<H, N>, nb0: usize, nin0: usize, bufs0: ([usize; MAXC], [usize; MAXC]), maxch: usize) -> (Ghost<N>, [Option<NonNull<[Descriptor]>>; K]) {
     let mut ord = [0u16; N];
     let mut i = 0;
     while i < N {
@@ -681,10 +860,15 @@ pub fn gen_indirect<H: Hal, const N: usize>(q: &mut VirtQueue<H, N>, nb0: usize,
             let mut s = 0;
             while s < MAXC {
                 if s < nb[k] {
-                    let len: usize = kani::any();
+                    let mut len: usize = kani::any();
                     kani::assume(len >= 1 && len <= u32::MAX as usize);
+                    let mut ptr = dummy_ptr(e + s);
+                    if k == 0 && nb0 > 0 {
+                        ptr = bufs0.0[s];
+                        len = bufs0.1[s];
+                    }
                     unsafe {
-                        LG[e + s] = Sh { ptr: kani::any(), len, dir: if s < nin[k] { D2D } else { D2H }, ap: q.access_platform, live: true, unshares: 0 };
+                        LG[e + s] = Sh { ptr, len, dir: if s < nin[k] { D2D } else { D2H }, ap: q.access_platform, live: true, unshares: 0 };
                     }
                 }
                 s += 1;
